@@ -28,14 +28,49 @@ def _case_select(nested):
     return st.builds(mk, c, e, e, c, e, G.column_ref)
 
 
+def _w(text):
+    """tiny lexeme writer for the pool of cheap body statements (one draw each: keeps nested bodies inside
+    Hypothesis' size budget, so deep nesting is actually generated)"""
+    out = []
+    for w in text.split():
+        if w == '(':
+            out.append(L('lp', '(', True))
+        elif w == ')':
+            out.append(G.RP())
+        elif w == ',':
+            out.append(P(','))
+        elif w == ':=':
+            out.append(L('assign', ':='))
+        elif w in ('=', '<', '>', '<>'):
+            out.append(L('cmp', w, True))
+        elif w in ('+', '-', '||'):
+            out.append(L('op', w, True))
+        elif w == '*':
+            out.append(L('star', '*'))
+        elif w[0].isdigit():
+            out.append(L('num', w))
+        elif w[0] == "'":
+            out.append(L('str', w.replace('_', ' ')))
+        elif w.isupper():
+            out.append(kw(w.replace('_', ' ')) if w not in ('SELECT', 'UPDATE', 'DELETE', 'INSERT') else L('kw', w, False, lead=w))
+        else:
+            out.append(L('name', w))
+    return out
+
+
+CHEAP = [_w(t) for t in [
+    'RETURN v', 'RETURN 1', 'v := v + 1', 'w := 0', "v := 'a;b'", 'NULL', 'CALL p ( 1 )', 'SELECT 1', 'SELECT a FROM t', 'SELECT a , b FROM t WHERE c = 2',
+    'UPDATE t SET a = 1 WHERE b = 2', 'DELETE FROM t WHERE a < 3', 'INSERT INTO t VALUES ( 1 , 2 )', "INSERT INTO t VALUES ( 'x;' )",
+    'SELECT CASE WHEN a = 1 THEN 2 ELSE 3 END FROM t', 'v := CASE WHEN a > 1 THEN 1 ELSE 0 END', 'SELECT * FROM t WHERE a IN ( 1 , 2 ) ORDER_BY b', 'SET v = 2',
+]]
+
+
 @functools.lru_cache(maxsize=None)
 def simple():
     assign = st.tuples(G.plain_name, G.expr(1)).map(lambda t: seq([t[0]], L('assign', ':='), t[1]))
     ret = G.expr(0).map(lambda e: seq(kw('RETURN'), e))
-    call = st.tuples(G.plain_name, st.lists(G.expr(0), max_size=2)).map(
-        lambda t: seq(kw('CALL'), [t[0]], L('lp', '(', True), G.tight_first(comma_list(t[1])), G.RP()))
-    null = st.just([kw('NULL')])
-    return st.one_of(G.select(0), G.update(), G.delete(), G.insert(), assign, assign, ret, call, null, _case_select(False))
+    cheap = st.sampled_from(CHEAP).map(lambda x: [list(l) for l in x])
+    return st.one_of(cheap, cheap, cheap, cheap, cheap, cheap, G.select(0), G.update(), G.delete(), assign, ret, _case_select(False))
 
 
 @functools.lru_cache(maxsize=None)
@@ -70,7 +105,11 @@ def stmt(depth, exclude):
     if 'nested_case_expr' not in exclude:
         alts.append(_case_select(True).map(lambda s: seq([['mark', '', True, {'m': 'o', 'k': 'hz', 'hz': 'nested_case_expr'}],
                                                           ['mark', '', True, {'m': 'c', 'k': 'hz'}]], s, semi())))
-    return st.one_of(*alts)
+    # Hypothesis favours the first alternatives (zero-extension, shrinking order): put the block constructs first and
+    # rotate them per depth so that every construct is the favoured one somewhere
+    constructs = alts[3:]
+    k = depth % len(constructs)
+    return st.one_of(*(constructs[k:] + constructs[:k] + alts[:3]))
 
 
 @functools.lru_cache(maxsize=None)
